@@ -11,7 +11,7 @@ from . import base
 
 WORD = re.compile(r"^[A-Za-z][A-Za-z0-9_]*$")
 
-OPS_WS = ("W1", "W3", "WT", "W0", "NL", "NLI", "CE", "CD")
+OPS_WS = ("W1", "W3", "WT", "W0", "NL", "NLI", "CE", "CD", "WFF", "WNB")
 OPS_ADJ = ("WI",)
 OPS_BOUNDARY = ("CO", "BL", "J", "CEE")
 OPS_WORD = ("UP", "LO", "CAP")
@@ -168,9 +168,11 @@ class SeedInfo:
             return cur != "\t"
         if k == "W0":
             return self._ok_line(ln, L[:s] + L[e:])
-        if k == "CD":
-            return True
-        return True  # NL NLI CE
+        if k == "WFF":
+            return cur != "\x0c"
+        if k == "WNB":
+            return cur != "\u00a0"
+        return True  # NL NLI CE CD
 
     # ------------------------------------------------------------------ application
     def apply(self, ops):
@@ -187,7 +189,7 @@ class SeedInfo:
                 s = c
                 e = s
                 # recompute the end of the whitespace run on the (possibly already edited, but only further right) line
-                while e < len(L) and L[e] in " \t":
+                while e < len(L) and L[e] in " \t\x0c\u00a0":
                     e += 1
                 if k == "W1":
                     lines[ln] = L[:s] + " " + L[e:]
@@ -197,6 +199,10 @@ class SeedInfo:
                     lines[ln] = L[:s] + "\t" + L[e:]
                 elif k == "W0":
                     lines[ln] = L[:s] + L[e:]
+                elif k == "WFF":
+                    lines[ln] = L[:s] + "\x0c" + L[e:]
+                elif k == "WNB":
+                    lines[ln] = L[:s] + "\u00a0" + L[e:]
                 elif k == "NL":
                     lines[ln : ln + 1] = [L[:s], L[e:]]
                 elif k == "NLI":
